@@ -24,6 +24,7 @@ class ServerPeer:
       close: ["reply", delay] | ["never"] | ["stream", period, count]     reaction to a client-initiated close
       eof_after_close: delay between our close reply / receipt of the client's reply and TCP close (0.0)
       chatty: [interval, count, bytes]  keeps sending after establishment
+      full_close: the server's end of stream is a close() of its socket: client writes after it are answered with RST
     """
 
     def __init__(self, sched, sock, spec):
@@ -44,6 +45,10 @@ class ServerPeer:
         self.garbage = None
         self.bytes_after_tcp_close = 0
         self.delivered = []  # (t, bytes)
+
+    def _eof(self):
+        # "full_close": the server closes its socket (later writes of the client meet a reset); default: only its FIN is seen
+        self.sock.peer_eof(full=bool(self.spec.get("full_close")))
 
     def deliver(self, data):
         if self.sock.eof:
@@ -75,7 +80,7 @@ class ServerPeer:
             elif mode == "silent":
                 pass
             elif mode == "eof":
-                self._later(self.spec.get("hs_delay", 0), self.sock.peer_eof)
+                self._later(self.spec.get("hs_delay", 0), self._eof)
             else:
                 code = mode[1]
                 declared, body = (mode[2], mode[3]) if len(mode) > 3 else (0, b"")  # an error body may be shorter than announced
@@ -83,7 +88,7 @@ class ServerPeer:
 
                 def rej():
                     self.deliver(resp)
-                    self.sock.peer_eof()
+                    self._eof()
 
                 self._later(self.spec.get("hs_delay", 0), rej)
         self._parse()
@@ -105,7 +110,7 @@ class ServerPeer:
                 self.sent_close = True
             self.deliver(act[1])
         elif act[0] == "eof":
-            self.sock.peer_eof()
+            self._eof()
         elif act[0] == "rst":
             self.sock.peer_rst()
 
@@ -132,7 +137,7 @@ class ServerPeer:
                 self.got_close = True
                 gap = self.spec.get("eof_after_close", 0.0)
                 if self.sent_close:
-                    self._later(gap, self.sock.peer_eof)
+                    self._later(gap, self._eof)
                 else:
                     pol = self.spec.get("close", ["reply", 0.0])
                     if pol[0] == "reply":
@@ -141,7 +146,7 @@ class ServerPeer:
                         def reply(body=body):
                             self.sent_close = True
                             self.deliver(rm.encode_frame(1, rm.CLOSE, body))
-                            self._later(gap, self.sock.peer_eof)
+                            self._later(gap, self._eof)
 
                         self._later(pol[1], reply)
                     elif pol[0] == "stream":
